@@ -32,6 +32,9 @@ LEVEL_NOTE = ("Hash functions, CRC-32C, compression codecs, kmsg's record/batch 
               "round-trip through a Lean decoder of the record wire format (record_roundtrip, records_roundtrip), incl. the NumRecords prefix rule.")
 TECHNIQUE = "Lean 4 proof over a hand-written model + Go/Lean differential correspondence + direct monitor"
 ASSUMPTIONS = [
+    "purity: lfs.EncodeEnvelope returns a fresh value (the model keeps each rewritten value as an immutable term); validated by the "
+    "per-record monitor on batches with 2..8 flagged records: every envelope is decoded AFTER the whole request was rewritten and "
+    "compared with its own record's blob (object bytes, sha256, size, checksum, distinct key)",
     "well-formed = every batch's NumRecords equals the number of encoded records and its codec is 0..4; the prefix behaviour for other batches is mirrored by the model but outside the theorem",
     "NumRecords is small and non-negative in generated requests (a negative / huge NumRecords makes lfsDecodeBatchRecords panic / allocate — noted in notes/C31.md, outside this property)",
     "header keys are ASCII (strings.ToLower modelled on ASCII)",
@@ -113,7 +116,10 @@ def gen_record(rng, i, flag_p, default_alg, clean):
 def gen_request(rng):
     clean = not rng.chance(1, 3)          # two thirds of the requests carry no error source: the rewrite must succeed
     default_alg = rng.choice([b"sha256", b"sha256", b"sha256", b"md5", b"crc32", b"none", b"SHA256 "]) if clean or not rng.chance(1, 10) else b"bogus"
-    flag_p = rng.choice([0, 2, 4, 4, 6, 10])
+    flag_p = rng.choice([0, 2, 4, 4, 6, 10, 10])
+    dense = rng.chance(1, 4)               # batches with 2..8 flagged records each (an envelope must describe ITS OWN record's blob)
+    if dense:
+        flag_p = 10
     maxblob = 6000 if clean else rng.choice([6000, 1000, 1000, 10, 0])
     fail_at = -1 if clean or not rng.chance(1, 4) else rng.choice([0, 1, 2])
     fail_del = rng.choice([0, 0, 1])
@@ -124,7 +130,7 @@ def gen_request(rng):
         for pi in range(rng.choice([1, 1, 2, 3])):
             batches = []
             for _ in range(rng.choice([1, 1, 1, 2, 3, 0])):
-                recs = [gen_record(rng, i, flag_p, default_alg, clean) for i in range(rng.choice([1, 1, 2, 3, 5, 0]))]
+                recs = [gen_record(rng, i, flag_p, default_alg, clean) for i in range(rng.range(2, 8) if dense else rng.choice([1, 1, 2, 3, 5, 0]))]
                 codec = rng.choice([0, 0, 1, 2, 3, 4]) if clean or not rng.chance(1, 10) else rng.choice([5, 7])
                 n = len(recs)
                 if rng.chance(1, 25):
@@ -133,6 +139,17 @@ def gen_request(rng):
             parts.append((pi * 3, batches))
         topics.append((names[ti], parts))
     return {"maxblob": maxblob, "default_alg": default_alg, "fail_at": fail_at, "fail_del": fail_del, "topics": topics}
+
+
+def corpus_dense(codec):
+    """One batch with 8 flagged records of different sizes (7, 70, 700, … bytes): every envelope must describe its own blob."""
+    recs = []
+    for i in range(8):
+        v = bytes([65 + i]) * ((7 * 10 ** i) % 5000 + i)
+        recs.append({"attrs": 0, "ts": i, "off": i, "key": bytes([97 + i]), "value": v,
+                     "headers": [(BLOB, hashlib.sha256(v).hexdigest().encode())]})
+    return {"maxblob": 6000, "default_alg": b"sha256", "fail_at": -1, "fail_del": 0,
+            "topics": [(b"demo-topic", [(0, [{"codec": codec, "n": 8, "records": recs}])])]}
 
 
 def op_line(req):
@@ -389,7 +406,7 @@ def run(ck):
                       "flagged/unflagged mixes, checksum headers (absent/right/upper-case/padded/wrong), LFS_BLOB_ALG variants, nil/empty keys, "
                       "values and header values, allow-listed headers in several cases, duplicate headers, extreme varint fields; faults: "
                       "upload k fails, blob too large, malformed NumRecords; non-trivial = rewrite succeeded with >= 1 flagged record")
-    reqs = [gen_request(ck.rng.fork()) for _ in range(n)]
+    reqs = [corpus_dense(c) for c in (0, 2, 4)] + [gen_request(ck.rng.fork()) for _ in range(n)]
     evaluate(ck, bins["h"], reqs)
     check_encoder(ck, bins["h"], reqs)
 
